@@ -105,6 +105,19 @@ func buildRiffTokens(seed int64) *riffTokens {
 	}
 	af[1] = 255 // first sample; every other residual is 0 (left neighbour, and the sample above in column 0)
 	t.pay["alph-opaque"], t.pay["alph-opaque-f"] = ao, af
+	// VP8 payloads whose frame header carries upscaling hints (the two bits above each 14-bit dimension)
+	for _, base := range []string{"vp8", "vp8a"} {
+		for _, v := range []string{"+hs", "+vs", "+hs+vs"} {
+			b := append([]byte(nil), t.pay[base]...)
+			if strings.Contains(v, "+hs") {
+				b[7] |= 0x80
+			}
+			if strings.Contains(v, "+vs") {
+				b[9] |= 0x40
+			}
+			t.pay[base+v] = b
+		}
+	}
 	t.pay["anim"] = []byte{0x44, 0x33, 0x22, 0x11, 7, 0}
 	t.pay["f-vp8"] = anmfPayload(0, 0, t.w, t.h, 50, 0, chunkBytes("VP8 ", t.pay["vp8"]))
 	t.pay["f-vp8l"] = anmfPayload(0, 0, t.w, t.h, 70, 2, chunkBytes("VP8L", t.pay["vp8l"]))
@@ -405,6 +418,34 @@ func checkC16(args []string) {
 			if key, msg := judgeHeaders(v, false, true, true, ew, eh, nf, 258+i, 1); key != "" {
 				run.Violate(key+"|mux-output", nm+": "+msg, nm)
 			}
+		}
+	}
+	// long animations: more frames (and more top-level chunks) than any internal table or limit below the documented
+	// 10 000-frame cap; every view must count the same frames
+	for _, nf := range []int{260, 1023, 1200} {
+		if !run.Thorough() && nf == 1023 {
+			continue
+		}
+		m := mux.NewMuxer()
+		m.SetLoopCount(3)
+		for k := 0; k < nf; k++ {
+			if err := m.AddFrame(mt.data[1+k%5], &mux.FrameOptions{Duration: 10 + k%7}); err != nil {
+				vx.Fatal2("mux AddFrame: %v", err)
+			}
+		}
+		var buf bytes.Buffer
+		if err := m.Assemble(&buf); err != nil {
+			vx.Fatal2("mux Assemble (%d frames): %v", nf, err)
+		}
+		nm := fmt.Sprintf("Muxer(frames=%d)", nf)
+		v, pan := queryAll(buf.Bytes())
+		if pan != nil {
+			run.Violate("panic|mux-output", nm, nm)
+			continue
+		}
+		run.Eval("mux|" + nm)
+		if key, msg := judgeHeaders(v, false, true, true, -1, -1, nf, 3, 1); key != "" {
+			run.Violate(key+"|long-animation", nm+": "+msg, nm)
 		}
 	}
 	run.Cov["hand_assembled"] = n
